@@ -259,6 +259,23 @@ def gen_preprocess(rng, idx):
     ivar = [[4.0] * n for _ in range(nobj)]
     a, b = 400, 40
     newloglam = [l0 + DL * (i - a) for i in range(n + a + b)]
+    mode = idx % 4
+    if mode in (1, 2, 3):
+        # explicit output grids offset from the input grid by a sub-pixel shift (0.1 .. 0.9 pixel), same length (1, 3)
+        # or different length (2); z = 0 for every object (1), for some (2), for none (3)
+        fr = rng.choice([0.125, 0.25, 0.3125, 0.5, 0.75, 0.875])
+        if mode == 1:
+            fr = [0.125, 0.25, 0.0625, 0.1875, 0.5, 0.875][(idx // 4) % 6]
+            z = [0.0] * nobj
+            newloglam = [l0 + DL * (i + fr) for i in range(n)]
+        elif mode == 2:
+            z = [0.0 if j % 2 == 0 else rng.choice([0.002, 0.01]) for j in range(nobj)]
+            newloglam = [l0 + DL * (i - 120 + fr) for i in range(n + 140)]
+        else:
+            z = [rng.choice([0.001, 0.002]) for _ in range(nobj)]
+            newloglam = [l0 + DL * (i - 12 + fr) for i in range(n)]
+            centre = [rng.randint(60, n - 45) for _ in range(nobj)]
+            flux = [[1.0 + 2.0 * math.exp(-0.5 * ((i - c) / 3.0) ** 2) for i in range(n)] for c in centre]
     return {'f': 'preprocess', 'flux': flux, 'ivar': ivar, 'loglam': loglam, 'zfit': z, 'newloglam': newloglam,
             'aesthetics': rng.choice(['mean', 'traditional']), 'centre': centre}
 
@@ -316,7 +333,7 @@ def correspond(ctx, proof_ok=True):
     calls += [gen_const_noivar(rng, i) for i in range(ctx.n(12, 60))]
     calls += [gen_stack(rng, i) for i in range(ctx.n(12, 100))]
     calls += [gen_stack_noivar(rng, i) for i in range(ctx.n(4, 24))]
-    calls += [gen_preprocess(rng, i) for i in range(ctx.n(6, 40))]
+    calls += [gen_preprocess(rng, i) for i in range(ctx.n(8, 40))]
     nb = 8
     outs = C.run_impl_parallel('c11_impl.py', [calls[i::nb] for i in range(nb)])
     results = [None] * len(calls)
@@ -365,6 +382,14 @@ def correspond(ctx, proof_ok=True):
                 # the emission feature placed at pixel `centre` must peak at L - log10(1+z)
                 want = c['loglam'][c['centre'][k]] - zs
                 peak = max(range(n_new), key=lambda p: r['flux'][k][p] if r['ivar'][k][p] > 0 else -1e30)
+                # sub-pixel position: flux-weighted centroid of the feature above the continuum (pixels with variance)
+                win = [p for p in range(max(0, peak - 9), min(n_new, peak + 10)) if r['ivar'][k][p] > 0]
+                wsum = sum(r['flux'][k][p] - 1.0 for p in win)
+                cen = sum((r['flux'][k][p] - 1.0) * c['newloglam'][p] for p in win) / wsum if wsum > 0.5 else None
+                if cen is not None and len(win) == 19 and abs(cen - want) > 0.1 * DL:
+                    viol('C11:preprocess_spectra:feature-not-shifted',
+                         'the centroid of a narrow feature at log-wavelength L is %.2f pixels away from L - log10(1+z)' % (
+                             (cen - want) / DL), c, r)
                 if abs(c['newloglam'][peak] - want) > 1.01 * DL:
                     viol('C11:preprocess_spectra:feature-not-shifted',
                          'a feature at log-wavelength L does not appear at L - log10(1+z) (off by %.2f pixels)' % (
